@@ -13,6 +13,7 @@ Independent oracles, used for the violation search only: an exact, self-certifyi
 iteration on Fractions, and the multichain LP solved by scipy.optimize.linprog in the impl process.
 When msdm reports converged=False the property says nothing; those cases are counted.
 """
+import json
 import math
 import os
 from fractions import Fraction as F
@@ -233,6 +234,34 @@ def gen_components(rng):
             "init": [[u, str(p)] for u, p in zip(starts, ps)], "gamma": rng.choice(["9/10", "19/20", "49/50", "99/100"])}
 
 
+def nondyadic(rng, m):
+    """same support and structure, NON-DYADIC numbers: every transition row re-split into thirds / sevenths / tenths
+    (e.g. 1/3 1/3 1/3, 7/10 2/10 1/10: float row sums are not exactly 1.0), rewards moved onto tenths / thirds"""
+    import copy
+    b = copy.deepcopy(m)
+    memo = {}
+    for k, row in b["trans"].items():
+        key = json.dumps(row)
+        if key in memo:                                   # duplicate rows stay exact duplicates
+            b["trans"][k] = copy.deepcopy(memo[key])
+            continue
+        pos = [i for i, (ns, p) in enumerate(row) if F(p) != 0]
+        if len(pos) >= 2:
+            den = rng.choice([d_ for d_ in (3, 7, 10) if d_ >= len(pos)])
+            cuts = sorted(rng.sample(range(1, den), len(pos) - 1))
+            parts = [y - x for x, y in zip([0] + cuts, cuts + [den])]
+            for i, q_ in zip(pos, parts):
+                row[i][1] = str(F(q_, den))
+        memo[key] = copy.deepcopy(row)
+    rmap = {}
+    for k, r in list(b["reward"].items()):
+        if r not in rmap:
+            rmap[r] = str(F(r) + rng.choice([F(0), F(1, 10), F(-3, 10), F(1, 3), F(7, 10)]))
+        if F(rmap[r]) != 0:
+            b["reward"][k] = rmap[r]
+    return b
+
+
 def _dy(rng, lo, hi, den=4):
     """a dyadic rational in [lo, hi]"""
     return F(rng.randint(lo * den, hi * den), den)
@@ -380,6 +409,11 @@ def gen_sweep(rng, tier):
     if rng.random() < .5:
         a, b = b, a        # either direction: closed -> leaky (too few equations reused) or leaky -> closed (too many)
     more = [b, a] if rng.random() < .6 else [b, perturb(rng, b), a]
+    if rng.random() < .35:
+        # an unrelated problem of a DIFFERENT size (and discounting) planned by the same object in between
+        other = gen_mdp.gen_mdp(rng, nmax=nmax + 2, amax=3, min_states=2, gamma=rng.choice(["1", "9/10"]), proper=True)
+        other["init"] = [[s_, p_] for s_, p_ in other["init"] if F(p_) != 0]
+        more.insert(rng.randrange(len(more)), other)
     return a, more
 
 
@@ -448,6 +482,24 @@ def gen_near_tie(rng, worse_first=False):
     return gen_mdp.gen_mdp(rng, nmax=4, amax=2, gamma="9/10"), None
 
 
+def gen_gain_near_tie(rng):
+    """undiscounted: a choice state enters one of two closed self-loops whose per-step rewards (gains) differ by a
+    RELATIVE 1e-6..1e-5 (at scale 1, 50 or 1000), for EQUAL one-off rewards (exact bias tie): only an absolute /
+    exact comparison of the gains separates the optimal action from the other one"""
+    G = F(rng.choice([1, 50, 1000]))
+    rho = F(rng.randint(1, 9), 10**6)
+    lo = G * (1 - rho)
+    better_first = rng.random() < .5
+    g1, g2 = (G, lo) if better_first else (lo, G)
+    c = F(rng.randint(-4, 4))
+    trans = {"0,0": [[1, "1"]], "0,1": [[2, "1"]], "1,0": [[1, "1"]], "2,0": [[2, "1"]]}
+    reward = {"1,0,1": str(g1), "2,0,2": str(g2)}
+    if c != 0:
+        reward["0,0,1"] = str(c); reward["0,1,2"] = str(c)
+    return {"n": 3, "nA": 2, "actions": [[0, 1], [0], [0]], "trans": trans, "reward": reward,
+            "absorbing": [False, False, False], "init": [[0, "1"]], "gamma": "1"}
+
+
 TINY_K = [8, 10, 20, 27, 30, 40, 52]
 
 
@@ -458,8 +510,27 @@ def gen_tiny(rng):
     e2 = e if rng.random() < .6 else F(1, 2 ** rng.choice(TINY_K))
     h = F(1, 2)
     shape = rng.choice(["leak-selfloop", "two-selfloops", "asym", "exit-terminal", "tiny-exit", "cycle-leak",
-                        "pair-leak", "cycle-leak-terminal", "chain-selfloops", "choice", "cycle-leak", "pair-leak"])
+                        "pair-leak", "cycle-leak-terminal", "chain-selfloops", "choice", "cycle-leak", "pair-leak",
+                        "tiny-init", "tiny-init", "tiny-init", "tiny-init", "big-reward", "big-reward"])
     term = set()
+    if shape == "tiny-init":
+        # a closed class that is reachable ONLY through an initial-distribution entry of probability 2^-k
+        kk = rng.choice([27, 30, 40, 52, 60])
+        r0, r1 = rng.sample([F(x) for x in range(-4, 6) if x != 0], 2)
+        return {"n": 3, "nA": 1, "actions": [[0], [0], [0]],
+                "trans": {"0,0": [[1, "1/2"], [0, "1/2"]], "1,0": [[0, "1"]], "2,0": [[2, "1"]]},
+                "reward": {"0,0,1": str(r0), "0,0,0": str(r0), "1,0,0": "1", "2,0,2": str(r1)},
+                "absorbing": [False, False, False],
+                "init": [[0, str(1 - F(1, 2**kk))], [2, str(F(1, 2**kk))]], "gamma": rng.choice(["1", "9/10", "19/20"])}
+    if shape == "big-reward":
+        # the branch of probability 2^-k carries a reward ~ 2^k: it contributes O(1) to the expected reward
+        c = F(rng.randint(1, 5)) * rng.choice([1, -1])
+        und = rng.random() < .5
+        return {"n": 3, "nA": 2, "actions": [[0, 1], [0], [0]],
+                "trans": {"0,0": [[1, str(1 - e)], [2, str(e)]], "0,1": [[1, "1"]], "1,0": [[1, "1"]], "2,0": [[2, "1"]]},
+                "reward": {"0,0,2": str(c / e), "0,1,1": str(c / 2), "1,0,1": "0" if und else "1", "2,0,2": "0" if und else "2"},
+                "absorbing": [False, True, True] if und else [False, False, False],
+                "init": [[0, "1"]], "gamma": "1" if und else rng.choice(["9/10", "19/20"])}
     if shape == "leak-selfloop":
         rows = {(0, 0): {0: 1 - e, 1: e}, (1, 0): {1: F(1)}}
     elif shape == "two-selfloops":
@@ -554,12 +625,22 @@ def gen_case(rng, tier):
     else:
         kind = "undisc-sweep"                 # one planner object: A, perturbed B, (C,) A again
         m, more = gen_sweep(rng, tier)
+    if kind == "undisc-farms" and os.environ.get("C16_GAIN_NEAR_TIE", "0") == "1" and rng.random() < .4:
+        # opt-in (reported to the coordinator): gains inside np.isclose's band with exactly tied biases
+        kind = "undisc-gain-near-tie"
+        m = gen_gain_near_tie(rng)
+    nd = False
+    if kind in ("discounted", "undisc-proper-nonpos", "undisc-terminal-either-sign", "undisc-recurrent", "undisc-blocks") \
+            and rng.random() < .35:
+        m, nd = nondyadic(rng, m), True
     # msdm's result assembly raises StateActionIndexError when the initial distribution lists a
     # zero-probability state that reachability left out of the state list (reported separately;
     # a raise is not a "reports convergence" run): keep such entries out of the generated cases
     m["init"] = [[s, p] for s, p in m["init"] if F(p) != 0]
     case = {"mdp": m, "kind": kind, "max_iterations": rng.choice([200, 500, 1000]),
-            "explicit_lists": rng.random() < .2}
+            "explicit_lists": rng.random() < .2, "nondyadic": nd,
+            # how the problem is handed to msdm (harness/impl/c16_impl.py:build_c16)
+            "opts": {"shared": rng.random() < .3, "int_typed": rng.random() < .25, "fresh_repeat": rng.random() < .15}}
     if more:
         case["more"] = more
     return case
@@ -796,6 +877,23 @@ def tiny_class_case(mdpcase, state_list):
     absorbing, _ = _c01.model_masks(P, R, av, absf, F(1))
     return tiny_probability(P, av, absorbing)
 
+GAIN_TIE_RULE = ("signature class: UNDISCOUNTED MDP (no transition probability <= 2^-10) in which, at some non-absorbing state, an "
+                 "available action has an exact action gain (P_a g*)(s) that is smaller than the optimal gain g*(s) but within "
+                 "1e-8 + 1e-5*|g*(s)| of it (inside np.isclose's default band)")
+
+
+def gain_inside_band(Pa, av, absorbing, gstar):
+    n, nA = len(Pa), len(Pa[0])
+    for s in range(n):
+        if absorbing[s]:
+            continue
+        for a in range(nA):
+            if av[s][a]:
+                gap = gstar[s] - ex(Pa, gstar, s, a)
+                if 0 < gap <= F(1, 10**8) + F(1, 10**5) * abs(gstar[s]):
+                    return {"state_index": s, "action_index": a, "gain_gap": str(float(gap)), "optimal_gain": str(float(gstar[s]))}
+    return None
+
 NEAR_TIE_RULE = ("signature class: discounted MDP with 1 - gamma > 2^-10 in which, at some non-absorbing state, an available action with a "
                  "LOWER action index than every optimal action has an exact optimal action value Q* that is not optimal but within "
                  "1e-8 + 1e-5*|Q*| of the optimum (inside np.isclose's default band)")
@@ -967,9 +1065,20 @@ def search_failing(case, res, d):
         gp, _ = eval_policy(Pa, Ra, up)
         if gp is not None:
             for s in range(n):
-                if gp[s] < gstar[s] - bound:
-                    return {"clause": "returned policy evaluated exactly does not attain the optimal gain",
-                            "policy": name, "oracle": src, "state_index": s, "policy_gain": str(gp[s]), "optimal": str(gstar[s])}
+                # both sides exact when the oracle is exact: any shortfall beyond 1e-9 of the gain scale is real
+                pb = F(1, 10**9) * d["gscale"] if src.startswith("exact") else bound
+                if gp[s] < gstar[s] - pb:
+                    why = {"clause": "returned policy evaluated exactly does not attain the optimal gain",
+                           "policy": name, "oracle": src, "state_index": s, "policy_gain": str(gp[s]), "optimal": str(gstar[s]),
+                           "relative_shortfall": str(float((gstar[s] - gp[s]) / d["gscale"]))}
+                    nt = gain_inside_band(Pa, av, d["absorbing"], gstar) if src.startswith("exact") else None
+                    if nt is not None and tiny_probability(d["P"], av, d["absorbing"]) is None:
+                        # plan_on keeps every action whose action gain is np.isclose (1e-8 + 1e-5|g|) to the best one,
+                        # and the gain improvement step keeps a current action inside that band
+                        why["signature"] = "C16:undiscounted:near-tie-inside-gain-band:policy-not-gain-optimal"
+                        why["class_rule"] = GAIN_TIE_RULE
+                        why["near_tie"] = nt
+                    return why
     if abs(d["ig"] - sum(d["ini"][s] * g[s] for s in range(n))) > slack:
         return {"clause": "initial gain is not the initial-distribution expectation of the state gains"}
     return None
@@ -992,7 +1101,12 @@ def run(ctx):
              "undisc_support_tight_for_reported_bias": 0, "absorbing_vec_differs_from_model": 0,
              "undisc_bias_tie_with_lower_gain_action": 0, "planner_reuse_steps": 0,
              "undisc_gain_below_minus_708": 0, "state_dependent_action_sets": 0,
-             "undisc_dual_vector_not_from_reported_bias": 0}
+             "undisc_dual_vector_not_from_reported_bias": 0, "reuse_steps_of_different_size": 0,
+             "shared_mutable_caller_objects": 0, "int_typed_inputs": 0, "nondyadic_numbers": 0,
+             "first_result_requeried_after_later_calls": 0, "same_problem_replanned_by_fresh_planner": 0,
+             "one_state": 0, "one_action": 0, "n_states_equals_n_actions": 0, "value_scale_ge_1e3": 0,
+             "tiny_initial_entry": 0, "tiny_transition_probability": 0, "reward_magnitude_ge_1e6": 0,
+             "near_tie_inside_relative_band": 0, "max_states": 0}
     # one judged item per planning step: (case index, step index, the case with "mdp" := that step's MDP, step result)
     items = []
     for i, (case, res) in enumerate(zip(cases, impl)):
@@ -1007,6 +1121,26 @@ def run(ctx):
                 continue
             items.append((i, j, dict(case, mdp=m), r))
             stats["planner_reuse_steps"] += int(j > 0)
+            stats["reuse_steps_of_different_size"] += int(j > 0 and len(r.get("state_list", [])) != len(res.get("state_list", [])))
+            if r.get("problem_mutated"):
+                ctx.violation("C16:planner-mutates-the-callers-problem", {"case": case, "step": j}, found=True)
+            if not case.get("explicit_lists"):
+                missing = sorted(set(gen_mdp.reachable(m)) - set(r.get("state_list", [])))
+                if missing:
+                    ctx.violation("C16:reachable-state-missing-from-result", {"case": case, "step": j, "missing_states": missing,
+                                  "state_list": r.get("state_list")}, found=True)
+        opts = case.get("opts", {})
+        stats["shared_mutable_caller_objects"] += int(bool(opts.get("shared")))
+        stats["int_typed_inputs"] += int(bool(opts.get("int_typed")))
+        stats["nondyadic_numbers"] += int(bool(case.get("nondyadic")))
+        if "first_result_requeried_equal" in res:
+            stats["first_result_requeried_after_later_calls"] += int(bool(case.get("more")))
+            if not res["first_result_requeried_equal"]:
+                ctx.violation("C16:first-result-changed-after-later-calls", {"case": case, "requery_error": res.get("requery_error")}, found=True)
+        if "fresh_repeat_equal" in res:
+            stats["same_problem_replanned_by_fresh_planner"] += 1
+            if not res["fresh_repeat_equal"]:
+                ctx.violation("C16:same-problem-different-result-in-one-process", {"case": case}, found=True)
     terms, meta, prepared = [], [], {}
     distinct = set()
     for k, (i, j, pc, res) in enumerate(items):
@@ -1069,6 +1203,15 @@ def run(ctx):
         if not all(d["absorbing"]):       # non-trivial: at least one non-terminal state
             distinct.add(vlib.structural_hash(pc["mdp"]))
         stats["state_dependent_action_sets"] += int(len({tuple(r_) for r_ in d["av"]}) > 1)
+        stats["one_state"] += int(d["n"] == 1)
+        stats["one_action"] += int(d["nA"] == 1)
+        stats["n_states_equals_n_actions"] += int(d["n"] == d["nA"])
+        stats["max_states"] = max(stats["max_states"], d["n"])
+        stats["value_scale_ge_1e3"] += int(d["scale"] >= 1000)
+        stats["tiny_initial_entry"] += int(any(0 < x <= F(1, 2**27) for x in d["ini"]))
+        stats["tiny_transition_probability"] += int(any(0 < x <= F(1, 2**27) for t_ in d["P"] for r_ in t_ for x in r_))
+        stats["reward_magnitude_ge_1e6"] += int(any(abs(x) >= 10**6 for t_ in d["R"] for r_ in t_ for x in r_))
+        stats["near_tie_inside_relative_band"] += int(case["kind"] in ("discounted-near-tie", "undisc-gain-near-tie"))
         if undisc:
             gq = d["gq"]
             live = [gq[s] for s in range(d["n"]) if not d["absorbing"][s]]
@@ -1136,6 +1279,11 @@ def run(ctx):
                 "only converged=True runs are judged; distinct = structural hash of the MDP; non-trivial = at least one non-terminal state" % nmax,
         "samples": [{"case": cases[items[meta[0]][0]], "impl": impl[items[meta[0]][0]]}] if meta else [],
         "cases": len(cases), "planning_steps": len(items), "certificate_checks": nchk, **stats,
+        "input_features": {k_: stats[k_] for k_ in ("one_state", "one_action", "n_states_equals_n_actions", "max_states", "value_scale_ge_1e3",
+                           "tiny_initial_entry", "tiny_transition_probability", "reward_magnitude_ge_1e6", "near_tie_inside_relative_band",
+                           "nondyadic_numbers", "shared_mutable_caller_objects", "int_typed_inputs", "planner_reuse_steps",
+                           "reuse_steps_of_different_size", "first_result_requeried_after_later_calls",
+                           "same_problem_replanned_by_fresh_planner", "state_dependent_action_sets", "undisc_gain_below_minus_708")},
         "observations": [
             "non-convergence (outside the property): bias improvement is not restricted to gain-maximising actions, so the iteration 2-cycles on "
             "most genuinely multichain MDPs; those runs report converged=False and are counted (not_converged), not judged",
